@@ -12,7 +12,8 @@ RULE = ("Scripted libraries whose ln_prior is an injective function of the row n
         "(n_requested, init_batch_size, growth_factor, max_prior_samples). Oracle: every returned row is identified "
         "through its period; its ln_prior must be a plain float64 equal to that row's stored value, its ln_likelihood "
         "equal to that row's likelihood, and the second return value equal to the likelihoods of the evaluated rows "
-        "in evaluation order. Non-trivial: >=2 returned rows together with a shuffle, a truncation, "
+        "in evaluation order. (real kernel) generated problems incl. rows where the K-variance cap binds: every returned "
+        "row's ln_likelihood == an independent marginal_ln_likelihood of that row, ln_prior == the stored value. Non-trivial: >=2 returned rows together with a shuffle, a truncation, "
         "n_linear_samples>1 or a multi-batch file path.")
 SHARDS = {"quick": 4, "thorough": 16}
 BUDGET = {"quick": 70, "thorough": 800}
@@ -132,8 +133,87 @@ def iter_body_factory(ctx):
     return body
 
 
+# ----------------------------------------------------------------------------- real kernel
+@st.composite
+def real_cases(draw):
+    from vt import gens
+
+    spec = draw(gens.problems(max_surveys=2, max_epochs=6, max_poly=2, n_rows=(3, 24), units=draw(st.booleans())))
+    spec["path"] = draw(st.sampled_from(["mem", "cache", "file"]))
+    n = len(spec["rows"])
+    spec["opts"] = {"n_linear": draw(st.sampled_from([1, 2, 3])), "randomize": draw(st.booleans()),
+                    "max_post": draw(st.one_of(st.none(), st.integers(1, n))), "n_batches": draw(st.one_of(st.none(), st.integers(1, 5))),
+                    "rng_seed": draw(st.integers(0, 2**32 - 1)), "iterative": draw(st.booleans()),
+                    "n_req": draw(st.integers(1, 4)), "init_batch": draw(st.integers(1, n))}
+    # short periods / large amplitudes so that the K-variance cap binds for part of the rows
+    for r in spec["rows"][::2]:
+        r["P"] = gens.rounded(draw(gens.logfloat(0.05, 2.0)), 9)
+    return spec
+
+
+def real_body_factory(ctx):
+    import os
+
+    import astropy.units as u
+
+    import thejoker as tj
+    from vt import gens
+    from vt import oracle_gauss as og
+    from vt.checks import c01, c03
+
+    def body(spec):
+        o = spec["opts"]
+        prob = og.Problem(spec)
+        data = gens.build_data(spec)
+        prior = gens.build_prior(spec["prior"])
+        n = len(spec["rows"])
+        lnp = -(np.arange(n, dtype=float) + 0.25)
+        lib = gens.build_samples(spec, extra={"ln_prior": lnp})
+        rows_eff = c01.effective_rows(lib, prob.data_unit)
+        with ctx.sut("marginal_ln_likelihood"):
+            ll_all = np.asarray(tj.TheJoker(prior).marginal_ln_likelihood(data, lib, in_memory=True), dtype=float)
+        joker = tj.TheJoker(prior, rng=np.random.default_rng(o["rng_seed"]))
+        src = lib
+        if spec["path"] == "file":
+            src = os.path.join(ctx.workdir, "c06real.hdf5")
+            lib.write(src, overwrite=True)
+        kw = dict(n_linear_samples=o["n_linear"], return_logprobs=True, in_memory=spec["path"] == "mem")
+        with ctx.sut("%s[%s]" % ("iterative_rejection_sample" if o["iterative"] else "rejection_sample", spec["path"])):
+            if o["iterative"]:
+                out = joker.iterative_rejection_sample(data, src, n_requested_samples=o["n_req"], init_batch_size=o["init_batch"],
+                                                       randomize_prior_order=o["randomize"], n_batches=o["n_batches"], **kw)
+            else:
+                out = joker.rejection_sample(data, src, max_posterior_samples=o["max_post"], randomize_prior_order=o["randomize"],
+                                             n_batches=o["n_batches"], **kw)
+        nl_units = {"P": u.day, "e": u.one, "omega": u.rad, "M0": u.rad, "s": og.unit(prob.data_unit)}
+        cap = False
+        for i in range(len(out)):
+            vals = {nm: float(out[nm][i].to_value(un)) for nm, un in nl_units.items()}
+            cand = [k for k, r in enumerate(rows_eff) if all(abs(r[nm] - vals[nm]) <= 4e-15 * abs(r[nm]) for nm in vals)]
+            if not cand:
+                raise Violation("returned row is not a prior sample", row=vals)
+            lp = float(np.asarray(out["ln_prior"])[i])
+            ll = float(np.asarray(out["ln_likelihood"])[i])
+            if not any(lp == lnp[k] for k in cand):
+                raise Violation("ln_prior of a returned row is not the value stored with that prior sample",
+                                row=vals, got=lp, candidates=[float(lnp[k]) for k in cand])
+            if not any(abs(ll - ll_all[k]) <= 1e-9 * (1 + abs(ll_all[k])) for k in cand):
+                raise Violation("ln_likelihood of a returned row is not the marginal ln-likelihood of that row's "
+                                "nonlinear parameters", row=vals, got=ll, marginal=[float(ll_all[k]) for k in cand])
+            K = spec["prior"]["K"]
+            if K["kind"] == "fcm" and rows_eff[cand[0]]["e"] <= 0.99:
+                capped = prob.linear_prior(rows_eff[cand[0]])[1][0]
+                uncapped = prob.linear_prior(rows_eff[cand[0]], ("F3",))[1][0]
+                cap = cap or uncapped > capped * (1 + 1e-12)
+        ctx.note_case(spec, len(out) >= 2, ["real:path:" + spec["path"], "real:iterative" if o["iterative"] else "real:rejection",
+                                            "real:n_linear=%d" % o["n_linear"], "real:cap binds" if cap else "real:cap idle"])
+
+    return body
+
+
 def run(ctx):
     big = not ctx.quick
     ctx.search("rejection", rej.rejection_cases(max_n=300 if big else 50, logprobs=True), body_factory(ctx),
                quick=1500, thorough=40000)
     ctx.search("iterative", iter_cases(max_n=300 if big else 80), iter_body_factory(ctx), quick=800, thorough=20000)
+    ctx.search("real_kernel", real_cases(), real_body_factory(ctx), quick=400, thorough=10000)
